@@ -1,4 +1,5 @@
 // ---- unit head (hand-written, trusted: imports only) ---------------------------------------
+#![feature(allocator_api)]
 #![allow(unused_imports, dead_code, unused_variables, unused_mut, non_camel_case_types, unused_parens, unused_braces, unused_assignments)]
 use vstd::prelude::*;
 use std::marker::PhantomData;
